@@ -1,9 +1,13 @@
 //! C04 — handlers are reachable only through the entry point of their own kind.
 #![allow(clippy::all)]
-#![allow(dead_code, unused_imports, unused_mut, static_mut_refs, deprecated)]
+#![allow(dead_code, unused_imports, unused_mut, static_mut_refs, deprecated, non_snake_case)]
 
 #[path = "../../corpus/basic.rs"]
 pub mod basic;
+
+/// unusual method identifiers: dispatch must still call the method the attribute sits on
+#[path = "../../corpus/names.rs"]
+pub mod names;
 
 /// Compile gate (also native): the generated entry points of corpus `basic` take the CONTRACT-LEVEL
 /// message of their kind.
